@@ -138,7 +138,7 @@ func (y *c16L1Sys) Root() *c16L1State {
 	must(ophosttypes.NewMsgInitiateTokenDeposit(a("alice"), 2, "l2addr", world.Coin("uyy", 5), nil))
 	must(ophosttypes.NewMsgInitiateTokenDeposit(a("alice"), 2, "l2addr", world.Coin("uxx", 1), []byte{7}))
 	must(ophosttypes.NewMsgProposeOutput(a("proposer"), 1, 1, 11, y.tree.OutputRoot[:]))
-	must(ophosttypes.NewMsgProposeOutput(a("proposer"), 2, 1, 12, y.tree2.OutputRoot[:]))
+	must(ophosttypes.NewMsgProposeOutput(a("proposer"), 2, 1, 0, y.tree2.OutputRoot[:])) // a first output may sit at L2 block 0
 	must(ophosttypes.NewMsgUpdateBatchInfo(w.Authority, 2, ophosttypes.BatchInfo{Submitter: a("stranger"), ChainType: ophosttypes.BatchInfo_CHAIN_TYPE_CELESTIA}))
 	ctx = world.Advance(ctx, 11*time.Second)
 	must(y.tree.claim(1, 1, "bob"))
